@@ -19,6 +19,11 @@ import sys
 import warnings
 
 SKIP_ATTRS = {'log'}
+
+
+class EnvironmentFailure(Exception):
+    """the operating system refused a resource: a failure of the run, never an outcome of the implementation"""
+
 PACKAGES = ['clustering', 'hierarchy', 'embedding', 'ranking', 'classification', 'regression', 'linkpred', 'gnn',
             'linalg']
 
@@ -166,14 +171,31 @@ def run_history(job, trace=None):
             try:
                 obj.set_params({k: _decode_param(v) for k, v in op['params'].items()})
                 params_after.update(op['params'])
-            except Exception as e:      # a refused set_params changes nothing
+            except Exception as e:
+                # Algorithm.set_params assigns the items in order and raises at the first unknown name: what came
+                # before it has been applied
                 errors.append('set:' + type(e).__name__)
+                try:
+                    valid = obj.get_params()
+                except Exception:
+                    valid = {}
+                for k, v in op['params'].items():
+                    if k not in valid:
+                        break
+                    params_after[k] = v
+        elif op['op'] == 'attr':
+            # plain attribute assignment by the user (e.g. `est.random_state = 4`, which set_params refuses)
+            for k, v in op['params'].items():
+                setattr(obj, k, _decode_param(v))
+                params_after[k] = v
         else:
             if op.get('np_seed') is not None:
                 np.random.seed(op['np_seed'])
             a, kw = fit_args(name, cls, op['input'])
             try:
-                obj.fit(*a, **kw)
+                getattr(obj, op['input'].get('entry', 'fit'))(*a, **kw)
+            except (OSError, MemoryError) as e:
+                raise EnvironmentFailure('%s during %s.fit: %s' % (type(e).__name__, name, str(e)[:200]))
             except Exception as e:      # a failing fit is a legitimate part of a history
                 errors.append('fit:' + type(e).__name__)
     if job.get('np_seed') is not None:
@@ -181,11 +203,18 @@ def run_history(job, trace=None):
     a, kw = fit_args(name, cls, job['target'])
     if trace is not None and hasattr(obj, '_c16_start'):
         obj._c16_start()
+    returned = None
+    entry = job['target'].get('entry', 'fit')
     try:
-        obj.fit(*a, **kw)
+        r = getattr(obj, entry)(*a, **kw)
         outcome = 'ok'
+        if entry != 'fit':
+            returned = canon(r)
+    except (OSError, MemoryError) as e:
+        # the machine refused a resource (fork of a multiprocessing pool under load, memory): not an outcome of the code
+        raise EnvironmentFailure('%s during %s.%s: %s' % (type(e).__name__, name, entry, str(e)[:200]))
     except Exception as e:
-        outcome = 'err ' + type(e).__name__
+        outcome = 'err ' + type(e).__name__ + ': ' + ' '.join(str(e).split())[:60]
     if trace is not None and hasattr(obj, '_c16_stop'):
         obj._c16_stop()
     # after a fit that raised, the exception is the result: the attributes are not compared
@@ -193,6 +222,8 @@ def run_history(job, trace=None):
     if outcome == 'ok':
         st = state(obj)
         st.update(outputs(obj))
+        if returned is not None:
+            st['<return of %s>' % entry] = returned
     return {'outcome': outcome, 'state': st, 'history_errors': errors,
             'params_after': params_after}, obj
 
@@ -255,6 +286,8 @@ def main():
     for j in jobs:
         try:
             out.append(run_job(j))
+        except EnvironmentFailure:
+            raise
         except Exception as e:      # never kill the batch
             out.append({'outcome': 'worker-exception ' + type(e).__name__ + ': ' + str(e)[:200], 'state': None})
     json.dump(out, sys.stdout)
